@@ -1817,8 +1817,12 @@ class Lowerer:
         callee = e['inner'][0]
         args = e['inner'][1:]
         c = callee
-        while c.get('kind') in ('ImplicitCastExpr', 'ParenExpr'):
-            c = c['inner'][0]
+        while c.get('kind') in ('ImplicitCastExpr', 'ParenExpr', 'SubstNonTypeTemplateParmExpr', 'ConstantExpr', 'UnaryOperator'):
+            if c.get('kind') == 'UnaryOperator' and c.get('opcode') != '&':
+                break
+            # a function passed as non-type template argument (`template <hash_fun_t H>`): the substituted
+            # replacement expression is the last child
+            c = c['inner'][-1] if c.get('kind') == 'SubstNonTypeTemplateParmExpr' else c['inner'][0]
         if c.get('kind') != 'DeclRefExpr':
             raise Unsupported('indirect call at %s' % where(e))
         r = c['referencedDecl']
